@@ -110,7 +110,8 @@ func upgradeScenarios(tier string) []*vx.Scenario {
 						l.serverSock.Emit("burst", i)
 					}
 				})
-			}, down, down, true, b, startUpgrade(func(d *vrig.Duplex) { d.CutBeforeS2C = 1 })))
+			}, []string{"transport close", "transport error"}, down, true, b, startUpgrade(func(d *vrig.Duplex) { d.CutBeforeS2C = 1 })))
+		// (server side: the cause is a write that failed, at once - not a heartbeat that times out 45 s later)
 	}
 	return out
 }
